@@ -51,6 +51,16 @@ def run(sh):
     for i in sh.share(2 if sh.tier == 'quick' else 12):
         engine_line.run_spec(sh, 'C05', modelgen.generate_mass_release(i, pol[i % 4]), MONITORS, nontrivial,
                              prefix='mass_release_')
+    conwip_leg(sh, core, modelgen, pol)
+
+
+def conwip_leg(sh, core, modelgen, pol):
+    # constant work in progress: the station behind a buffer feeds a hand-made job into that buffer from its receive
+    # callback, i.e. Buffer.give_part nested in the buffer's own release; hundreds of releases per model
+    for i in sh.share(24 if sh.tier == 'quick' else 600):
+        seed = core.stable_int(sh.seed, 'C05', 'conwip', i) % (1 << 40)
+        engine_line.run_spec(sh, 'C05', modelgen.generate_conwip(seed, pol[i % 4]), MONITORS, nontrivial,
+                             prefix='conwip_')
 
 
 def replay(sh, v):
